@@ -82,29 +82,59 @@ class Lock:
         self.f.close()
 
 
-def coq_build(timeout=3000):
-    """Full .vo build of coq/theories (incremental).  Returns (ok, log)."""
+def _regen_makefile():
+    vs = sorted(str(p.relative_to(COQ)) for p in (COQ / "theories").rglob("*.v"))
+    need = not (COQ / "Makefile").exists() or not (COQ / "Makefile.conf").exists()
+    if not need:
+        conf = (COQ / "Makefile.conf").read_text()
+        m = re.search(r"COQMF_VFILES = (.*)", conf)
+        have = set(m.group(1).split()) if m else set()
+        need = set(vs) != have
+    if need:
+        r = subprocess.run(["coq_makefile", "-f", "_CoqProject", "-o", "Makefile"] + vs, cwd=COQ,
+                           capture_output=True, text=True, env=coq_env())
+        if r.returncode != 0:
+            return False, r.stdout + r.stderr
+    return True, ""
+
+
+def coq_build(target=None, timeout=3000):
+    """.vo build (never -vos) of coq/theories, or of one target (e.g. theories/Props/C01.vo) and its
+    dependency closure.  Serialised by a lock.  Returns (ok, log)."""
     with Lock("coqmake"):
-        if not (COQ / "Makefile").exists() or (COQ / "Makefile").stat().st_mtime < (COQ / "_CoqProject").stat().st_mtime:
-            vs = sorted(str(p.relative_to(COQ)) for p in (COQ / "theories").rglob("*.v"))
-            r = subprocess.run(["coq_makefile", "-f", "_CoqProject", "-o", "Makefile"] + vs, cwd=COQ,
-                               capture_output=True, text=True, env=coq_env())
-            if r.returncode != 0:
-                return False, r.stdout + r.stderr
-        else:
-            # new .v files since the Makefile was generated?
-            conf = (COQ / "Makefile.conf").read_text() if (COQ / "Makefile.conf").exists() else ""
-            vs = sorted(str(p.relative_to(COQ)) for p in (COQ / "theories").rglob("*.v"))
-            if any(v not in conf for v in vs):
-                r = subprocess.run(["coq_makefile", "-f", "_CoqProject", "-o", "Makefile"] + vs, cwd=COQ,
-                                   capture_output=True, text=True, env=coq_env())
-                if r.returncode != 0:
-                    return False, r.stdout + r.stderr
+        ok, log = _regen_makefile()
+        if not ok:
+            return False, log
+        cmd = ["make", "-j16"] + ([target] if target else [])
         try:
-            r = subprocess.run(["make", "-j16"], cwd=COQ, capture_output=True, text=True, env=coq_env(), timeout=timeout)
+            r = subprocess.run(cmd, cwd=COQ, capture_output=True, text=True, env=coq_env(), timeout=timeout)
         except subprocess.TimeoutExpired:
             return False, "make timed out"
         return r.returncode == 0, r.stdout[-4000:] + r.stderr[-4000:]
+
+
+def vo_closure(target_v: str):
+    """Source files (relative to coq/) in the dependency closure of a theory file, from coq_makefile's .Makefile.d."""
+    dfile = COQ / ".Makefile.d"
+    deps = {}
+    if dfile.exists():
+        for line in dfile.read_text().splitlines():
+            if ":" not in line:
+                continue
+            lhs, rhs = line.split(":", 1)
+            outs = [x for x in lhs.split() if x.endswith(".vo")]
+            ins = [x for x in rhs.split() if x.endswith(".vo") and x.startswith("theories/")]
+            for o in outs:
+                deps[o] = ins
+    start = target_v[:-2] + ".vo"
+    seen, todo = set(), [start]
+    while todo:
+        x = todo.pop()
+        if x in seen:
+            continue
+        seen.add(x)
+        todo += deps.get(x, [])
+    return sorted(x[:-3] + ".v" for x in seen)
 
 
 def coqc(path: Path, extra=(), timeout=600):
@@ -155,12 +185,16 @@ def audit_props(pid: str):
         problems.append(f"{len(theorems)} theorems but only {n_pa} Print Assumptions")
     # forbidden vernacular anywhere in the development
     pat = re.compile(r"\b(Admitted|admit|Axiom|Axioms|Parameter|Parameters|Conjecture|Unset Guard Checking|bypass_check|Admit Obligations|Unset Positivity Checking|Unset Universe Checking)\b")
-    for v in (COQ / "theories").rglob("*.v"):
+    closure = vo_closure(f"theories/Props/{pid}.v")
+    for rel in closure:
+        v = COQ / rel
+        if not v.exists():
+            continue
         body = re.sub(r"\(\*.*?\*\)", "", v.read_text(), flags=re.S)
         for m in pat.finditer(body):
-            problems.append(f"forbidden vernacular {m.group(1)!r} in {v.relative_to(COQ)}")
-    return dict(ok=not problems, theorems=theorems, n_closed=closed, axioms=sorted(axioms), problems=problems,
-                cmd=f"make -C coq -j16 && coqc -R coq/theories Cheetah coq/theories/Props/{pid}.v")
+            problems.append(f"forbidden vernacular {m.group(1)!r} in {rel}")
+    return dict(ok=not problems, theorems=theorems, n_closed=closed, axioms=sorted(axioms), problems=problems, closure=closure,
+                cmd=f"make -C coq -j16 theories/Props/{pid}.vo && coqc -R coq/theories Cheetah coq/theories/Props/{pid}.v")
 
 
 # ---------------------------------------------------------------- Coq literals
@@ -236,13 +270,68 @@ def run_shards(pid, name, preamble, case_terms, checker, shard=250, jobs=8, time
     return sorted(failing)
 
 
+def run_real_goals(pid, name, preamble, goals, shard=40, jobs=16, timeout=1200, max_fail=8):
+    """goals: list of (statement, tactic) strings, each proved by `Lemma g_i : statement. Proof. tactic. Qed.`
+    (one per line, so that a coqc error line identifies the goal).  Returns (failing_indices, errors) where
+    errors maps index -> coqc message.  A failing goal is removed and the shard re-run, up to max_fail per shard;
+    if more fail the remaining ones of that shard are all reported failing."""
+    from concurrent.futures import ThreadPoolExecutor
+    bdir = BUILD / pid
+    bdir.mkdir(parents=True, exist_ok=True)
+    pre_lines = preamble.count("\n") + 1
+    chunks = [(k, list(range(k, min(k + shard, len(goals))))) for k in range(0, len(goals), shard)]
+
+    def work(ch):
+        k, idxs = ch
+        failing, errors = [], {}
+        path = bdir / f"{name}_{k}.v"
+        while idxs:
+            body = [f"Lemma g_{i} : {goals[i][0]}. Proof. {goals[i][1]} Qed." for i in idxs]
+            path.write_text(preamble + "\n" + "\n".join(body) + "\n")
+            rc, out, err = coqc(path, timeout=timeout)
+            if rc == 0:
+                break
+            m = re.search(r'line (\d+), characters', err)
+            if rc == 124 or not m or len(failing) >= max_fail:
+                for i in idxs:
+                    failing.append(i)
+                    errors[i] = err[-600:] if err else "timeout"
+                break
+            ln = int(m.group(1)) - pre_lines - 1
+            if ln < 0 or ln >= len(idxs):
+                raise RuntimeError(f"coqc failed outside the goals of {path}: {err[-1500:]}")
+            bad = idxs[ln]
+            failing.append(bad)
+            errors[bad] = err[-600:]
+            idxs = idxs[:ln] + idxs[ln + 1:]
+        return failing, errors
+    allf, alle = [], {}
+    with ThreadPoolExecutor(max_workers=jobs) as ex:
+        for f, e in ex.map(work, chunks):
+            allf += f
+            alle.update(e)
+    return sorted(allf), alle
+
+
 # ---------------------------------------------------------------- known findings
 def load_known_findings(pid: str):
     p = VERIF / "known_findings.json"
-    if not p.exists():
-        return []
-    data = json.loads(p.read_text())
-    return [f for f in data.get("findings", []) if pid in f.get("properties", [f.get("property")])]
+    entries = []
+    if p.exists():
+        entries += json.loads(p.read_text()).get("findings", [])
+    # fragments written while a check is being developed; merged into known_findings.json before release
+    for frag in sorted((VERIF / "known_findings.d").glob("*.json")) if (VERIF / "known_findings.d").exists() else []:
+        d = json.loads(frag.read_text())
+        entries += d if isinstance(d, list) else d.get("findings", [d])
+    return [f for f in entries if pid in f.get("properties", [f.get("property")])]
+
+
+def known_signature_match(pid: str, pred):
+    """First listed (status known) finding of `pid` whose entry satisfies pred(entry), else None."""
+    for f in load_known_findings(pid):
+        if f.get("status") == "known" and pred(f):
+            return f
+    return None
 
 
 # ---------------------------------------------------------------- evidence / verdict
@@ -312,7 +401,7 @@ class Run:
 
     def proof_stage(self) -> bool:
         """make + audit of Props/<pid>.v.  On failure reports a violation (no failing input yet: caller may search)."""
-        ok, log = coq_build()
+        ok, log = coq_build(f"theories/Props/{self.pid}.vo")
         if not ok:
             self.proof_problem = f"coq build failed: {log[-1500:]}"
             return False
